@@ -9,7 +9,7 @@ DST = "/verif/refactorings"
 PROPS = subprocess.run(["/venv/bin/python", "-c", "import sys; sys.path.insert(0,'/verif'); from pmcsa import registry; print(' '.join(sorted(registry.CLAIMED)))"], capture_output=True, text=True).stdout.split()
 def harvest():
     # round 1: /tmp/wt-out/refac/R0x/rN -> R0xrN ; round 2: /tmp/wt-out/refac2/R0x/rN -> S0xrN
-    for src, pre in ((SRC, "R"), (SRC + "2", "S"), (SRC + "3", "T")):
+    for src, pre in ((SRC, "R"), (SRC + "2", "S"), (SRC + "3", "T"), (SRC + "4", "U")):
         if not os.path.isdir(src): continue
         for w in sorted(os.listdir(src)):
           for r in sorted(os.listdir(os.path.join(src, w))):
@@ -19,22 +19,49 @@ def harvest():
                 os.makedirs(dst, exist_ok=True)
                 shutil.copy(os.path.join(d, "patch.diff"), dst)
                 if os.path.exists(os.path.join(d, "note.md")): shutil.copy(os.path.join(d, "note.md"), dst)
+BASE_DEFAULT = "d534e3c"  # the /repo commit rounds R, S, T, U were written against
+_base_cache = {}
+def base_findings(commit):
+    """Finding keys every check reports on the unrefactored tree of `commit` (the refactoring must add none)."""
+    if commit in _base_cache: return _base_cache[commit]
+    wt = "/tmp/wt/refbase_" + commit
+    shutil.rmtree(wt, ignore_errors=True); os.makedirs(wt)
+    subprocess.run("git -C /repo archive %s | tar -x -C %s" % (commit, wt), shell=True, check=True)
+    out = {}
+    for p in PROPS:
+        r = subprocess.run(["./check", p, "--root", wt], cwd="/verif", capture_output=True, text=True)
+        out[p] = (r.returncode, set(re.findall(r"\[(C\d\d\.R[\w.]+:[^\]]*)\]", r.stdout)))
+    shutil.rmtree(wt, ignore_errors=True)
+    _base_cache[commit] = out
+    return out
 def one(rid):
     d = os.path.join(DST, rid)
     wt = "/tmp/wt/refrun_" + rid
     shutil.rmtree(wt, ignore_errors=True); os.makedirs(wt)
+    base = "HEAD"
     subprocess.run("git -C /repo archive HEAD | tar -x -C %s" % wt, shell=True, check=True)
+    r = subprocess.run("patch -p1 -s --dry-run < %s/patch.diff" % d, shell=True, cwd=wt, capture_output=True, text=True)
+    if r.returncode != 0:
+        # written against an older commit and touching code a later `fix:` changed: judged relative to that commit
+        base = open(os.path.join(d, "base.txt")).read().strip() if os.path.exists(os.path.join(d, "base.txt")) else BASE_DEFAULT
+        shutil.rmtree(wt, ignore_errors=True); os.makedirs(wt)
+        subprocess.run("git -C /repo archive %s | tar -x -C %s" % (base, wt), shell=True, check=True)
     r = subprocess.run("patch -p1 -s < %s/patch.diff" % d, shell=True, cwd=wt, capture_output=True, text=True)
     if r.returncode != 0:
-        shutil.rmtree(wt, ignore_errors=True); return rid, "patch does not apply", {}
+        shutil.rmtree(wt, ignore_errors=True); return rid, "patch does not apply", {"-": (3, ["patch does not apply to HEAD or %s" % base], [])}
     t = subprocess.run("PYTHONPATH=%s /venv/bin/python -m pytest -q -p no:cacheprovider --timeout=900 -x 2>&1 | tail -1" % wt, shell=True, cwd=wt, capture_output=True, text=True).stdout.strip()
     res = {}
     for p in PROPS:
         r = subprocess.run(["./check", p, "--root", wt], cwd="/verif", capture_output=True, text=True)
         if r.returncode != 0:
-            keys = re.findall(r"\[(C\d\d\.R[\w.]+:[^\]]*)\]", r.stdout)
+            keys = set(re.findall(r"\[(C\d\d\.R[\w.]+:[^\]]*)\]", r.stdout))
             errs = [l[:200] for l in r.stdout.splitlines() if l.startswith("ANALYSIS-ERROR")]
-            res[p] = (r.returncode, sorted(set(keys))[:4], errs[:1])
+            if base != "HEAD":
+                brc, bkeys = base_findings(base)[p]
+                keys -= bkeys  # findings the unrefactored tree of that commit has as well are not the refactoring's
+                if not keys and not errs and brc == r.returncode:
+                    continue
+            res[p] = (r.returncode, sorted(keys)[:4], errs[:1])
     shutil.rmtree(wt, ignore_errors=True)
     return rid, t, res
 if __name__ == "__main__":
